@@ -60,7 +60,9 @@ func (c *checkSchema) checkType(name string, typ ischema.Type, ss map[string]isc
 			// A node inherited through allOf (or an unnamed type met through its
 			// owner) keeps the file of the text it was written in; giving it this
 			// type's file would pair that file with a foreign index.
-			if jErr.Filename() == "" || typ.RootFile == nil || jErr.Filename() == typ.RootFile.Name() {
+			// (The files are compared, not their names: type bodies cut out of
+			// one source file all carry that file's name.)
+			if jErr.IsInFile(nil) || typ.RootFile == nil || jErr.IsInFile(typ.RootFile) {
 				jErr.SetFile(typ.RootFile)
 				jErr.SetIndex(bytes.Index(jErr.Index()) + typ.Begin)
 			}
